@@ -322,6 +322,31 @@ Fixpoint flush_run {R} (file buf : list R) (evs : list (fevent R)) : list R * li
 Definition records_of {R} (evs : list (fevent R)) : list R :=
   flat_map (fun e => match e with FRec r => [r] | FFlush => [] end) evs.
 
+(* ---- what is on disk: the trajectory stream is buffered ------------------------------------------- *)
+(* Lines go to a stream buffer; colvarmodule::write_traj_files synchronises it with the disk at the end of a calc()
+   whose step is a multiple of the restart frequency (no condition on step_relative); the C++ stream may also spill
+   any prefix of its buffer to the disk at any time (when it fills up). *)
+Inductive bevent (L : Type) := BLine (l : L) | BSync | BSpill (n : nat).
+Arguments BLine {L}. Arguments BSync {L}. Arguments BSpill {L}.
+Fixpoint buf_run {L} (disk buf : list L) (evs : list (bevent L)) : list L * list L :=
+  match evs with
+  | [] => (disk, buf)
+  | BLine l :: e => buf_run disk (buf ++ [l]) e
+  | BSync :: e => buf_run (disk ++ buf) [] e
+  | BSpill n :: e => buf_run (disk ++ firstn n buf) (skipn n buf) e
+  end.
+Definition blines {L} (evs : list (bevent L)) : list L :=
+  flat_map (fun e => match e with BLine l => [l] | _ => [] end) evs.
+(* the stream events of one calc(): its lines, then the synchronisation if the step is on the restart grid *)
+Definition traj_calc_bevents (rfreq : Z) (s : tstate) (it : Z) : tstate * list (bevent tline) :=
+  let '(s1, ls) := traj_calc s it in
+  (s1, map BLine ls ++ (if negb (rfreq =? 0) && (it mod rfreq =? 0) then [BSync] else [])).
+Fixpoint traj_bevents (rfreq : Z) (s : tstate) (its : list Z) : list (bevent tline) :=
+  match its with
+  | [] => []
+  | it :: r => let '(s1, be) := traj_calc_bevents rfreq s it in be ++ traj_bevents rfreq s1 r
+  end.
+
 Local Close Scope Z_scope.
 
 (* =================================================================================================
